@@ -265,7 +265,7 @@ end
 /-- the Go type of an enum's first member (`formatType(enumType.Values[0].Type)`); the VIR keeps the
     member's scalar kind only (`?…` = not a scalar: not modelled) -/
 def fmtEnumUnder (c : Ctx) (kind : String) : GoTy :=
-  if kind.startsWith "?" then .crash ("enum-member-type-not-modelled:" ++ kind) else fmtScalarTy c.cfg kind {}
+  if kind.toList.head? == some '?' then .crash ("enum-member-type-not-modelled:" ++ kind) else fmtScalarTy c.cfg kind {}
 
 def enumMembers (enumName : String) : List EnumVal → List (String × GoExpr)
   | [] => []
